@@ -29,11 +29,19 @@ Section Resize.
     (forall a s', f a s' = g a s') -> bind m f s = bind m g s.
   Proof. intros H. unfold bind. destruct (m s) as [[a| | | | |] s']; auto. Qed.
 
-  Lemma repeat_push_clones v e : forall k s,
-    repeat_m k (c <- clone_elem cfg e ;; push cfg ncap v c) s = push_clones cfg ncap v (repeat e k) s.
+  Lemma resize_loop_push_clones v e hi : forall k fuel i s,
+    (k <= fuel)%nat -> 0 <= i -> i + Z.of_nat k = hi -> hi < W64 ->
+    resize_loop cfg ncap fuel v e i hi s = push_clones cfg ncap v (repeat e k) s.
   Proof.
-    induction k as [|k IH]; intros s; [reflexivity|]. cbn [repeat_m repeat push_clones].
-    rewrite bind_assoc. apply bind_ext. intros c s1. apply bind_ext. intros u s2. apply IH.
+    induction k as [|k IH]; intros fuel i s Hf Hi Hk Hw.
+    - assert (E : (i <? hi) = false) by (apply Z.ltb_ge; lia).
+      destruct fuel; simpl; rewrite E; reflexivity.
+    - destruct fuel as [|fuel]; [lia|].
+      assert (E : (i <? hi) = true) by (apply Z.ltb_lt; lia).
+      cbn [resize_loop repeat push_clones]. rewrite E.
+      apply bind_ext. intros c s1. apply bind_ext. intros u s2.
+      rewrite (bind_val _ _ _ _ _ (uadd_one cfg i Hi ltac:(lia) s2)).
+      apply IH; lia.
   Qed.
 
   Lemma nth_repeat_local (a : elem) : forall m j, (j < m)%nat -> nth j (repeat a m) 0 = a.
@@ -75,7 +83,7 @@ Section Resize.
   Proof.
     intros Hab Hlive Hold Hnot Hcp Hn Hsmall L.
     destruct (vabs_owned cfg s v l Hab) as (Hnd & Hlv & Holdl).
-    unfold resize.
+    unfold resize, resize_body.
     (* what the body establishes, keeping `value` alive and outside the vector *)
     set (B := fun (s1 : state) (l1 : list elem) => vabs s1 v l1 /\ ledger s1 value = Live /\ ~ In value l1).
     eapply post_try_finally with
@@ -91,13 +99,14 @@ Section Resize.
                           (l' = firstn (Z.to_nat n) l \/
                            exists k, (k <= Z.to_nat (n - L))%nat /\ l' = l ++ zseq (next_elem s) k)).
     - rewrite (bind_val _ _ _ _ _ (vabs_len s v l Hab)). fold L.
-      destruct (Z.eqb_spec n L) as [E|NE].
-      { (* same length *)
+      destruct (Z.ltb_spec n L) as [Hshrink0|Hnotless].
+      2: destruct (Z.eqb_spec n L) as [E|NE].
+      2:{ (* same length *)
         simpl. assert (E1 : (n <=? L) = true) by (apply Z.leb_le; lia). rewrite E1.
         rewrite firstn_all2 by (unfold L in *; lia). rewrite skipn_all2 by (unfold L in *; lia).
         split; [split; [exact Hab|split; assumption]|]. split; [intros e []|reflexivity]. }
-      destruct (Z.ltb_spec L n) as [Hgrow|Hshrink].
-      + (* longer *)
+      2:{ (* longer *)
+        assert (Hgrow : L < n) by lia.
         assert (E1 : (n <=? L) = false) by (apply Z.leb_gt; lia). rewrite E1.
         eapply post_bind.
         { eapply post_weaken; [apply (capop_abs cfg ncap Hcfg Hpol s v l (CReserve (n - L)) Hab); simpl; lia| |].
@@ -106,7 +115,8 @@ Section Resize.
             right. exists O. split; [lia|]. simpl. rewrite app_nil_r. reflexivity. }
         intros u s1 (Hab1 & [Hn1 Hl1] & (Hq1 & Hq2 & Hq3)).
         assert (Hk : small (n - L) = Z.to_nat (n - L)) by (unfold small; rewrite Z.min_l by lia; reflexivity).
-        rewrite Hk, repeat_push_clones.
+        rewrite Hk.
+        rewrite (resize_loop_push_clones v value (n - L) (Z.to_nat (n - L)) (Z.to_nat (n - L)) 0 s1) by (unfold W64 in *; lia).
         set (k := Z.to_nat (n - L)).
         assert (Hcl1 : cloneable s1 (repeat value k)).
         { intros e He. apply repeat_spec in He. subst e. split; [rewrite Hl1 by (intros []); exact Hlive|]. split; [lia|]. rewrite Hq2. exact Hcp. }
@@ -123,8 +133,9 @@ Section Resize.
           intros e He. destruct (G3 e (Holdl e He)) as [A _]. rewrite A. apply Hl1. intros [].
         * intros s2 (k' & Hk' & G1 & G2). exists (l ++ zseq (next_elem s) k').
           split; [split; [exact G1|split; [|apply Hfresh]]|right; exists k'; split; [exact Hk'|reflexivity]].
-          rewrite (G2 value Hold). rewrite Hl1 by (intros []). exact Hlive.
-      + (* shorter *)
+          rewrite (G2 value Hold). rewrite Hl1 by (intros []). exact Hlive. }
+      (* shorter *)
+      { assert (Hshrink : n < L) by lia.
         assert (E1 : (n <=? L) = true) by (apply Z.leb_le; lia). rewrite E1.
         pose proof (truncate_abs cfg Hcfg Htracked s v l n Hab Hn) as Ht. cbv zeta in Ht.
         assert (Hkeep : forall s1, only_changes s s1 (skipn (Z.to_nat n) l) -> ledger s1 value = Live).
@@ -134,7 +145,7 @@ Section Resize.
         * intros u s1 (G1 & G2 & G3). split; [split; [exact G1|split; [apply Hkeep; exact G3|exact Hnf]]|].
           split; [exact G2|exact (proj1 G3)].
         * intros s1 (G1 & G2 & G3). exists (firstn (Z.to_nat n) l).
-          split; [split; [exact G1|split; [apply Hkeep; exact G3|exact Hnf]]|left; reflexivity].
+          split; [split; [exact G1|split; [apply Hkeep; exact G3|exact Hnf]]|left; reflexivity]. }
     - (* normal exit: the argument is dropped *)
       intros u s1 H1.
       assert (Hdrop : forall l1, B s1 l1 ->
